@@ -106,6 +106,19 @@ def shift_chains():
                     'std::vector<vf::X> cs; for (int c = 0; c <= %d; ++c) cs.push_back(vf::X::from_i(c)); std::vector<std::vector<vf::X>> ls{c11::leaves<T0>(rng, NR), cs}; '
                     'c11::run_chain("%s", c11::Tags{%d, %d}, ls, [&](vf::X const* x) { %s }); }') % (t, desc, d + 2, desc, r, o, body)
             out.append((desc, stmt))
+    # two leaves of the same full-width type, divided both ways (every pairing of adjacent limits is enumerated by run_chain)
+    i = 0
+    for kind, d, e, n in [("si", 31, 0, 2), ("si", 63, 0, 2), ("si", 15, 0, 1), ("si", 7, 0, 0), ("sn", 31, -8, 2), ("sn", 63, -20, 2)]:
+        for r in (1, 2, 3, 0):
+            o = i % 3
+            i += 1
+            t = typ(kind, d, e, r, o, n)
+            desc = "divchain %s<%d,%d> %s,%s,%s" % (kind, d, e, RNAME[r], ONAME[o], NARROW[n][1])
+            body = "auto v0 = c11::deep<T0>(x[0]); auto v1 = c11::deep<T0>(x[1]); auto q0 = c11::div(v0, v1); auto q1 = c11::div(v1, v0); auto n0 = c11::neg(q0); (void)c11::less(q0, q1);"
+            stmt = ('{ using T0 = %s; vf::Rng rng(vf::mix(vf::env_seed(), vf::hash_str("%s"))); long NR = vf::env_long("VERIF_NRAND", 12); '
+                    'std::vector<std::vector<vf::X>> ls{c11::leaves<T0>(rng, NR), c11::leaves<T0>(rng, NR)}; '
+                    'c11::run_chain("%s", c11::Tags{%d, %d}, ls, [&](vf::X const* x) { %s }); }') % (t, desc, desc, r, o, body)
+            out.append((desc, stmt))
     return out
 
 
